@@ -405,6 +405,14 @@ func (c *ctx) doArch(seedName string, perOp int) {
 					t := append([]string(nil), base...)
 					t[i] = "zz9"
 					c.checkRejected(name, "unknown-name", strings.TrimSpace(name+" "+strings.Join(t, " ")))
+					// names with a malformed index: negative, signed, padded, empty
+					zero := gen.Operand(f, 0)
+					prefix := strings.TrimSuffix(zero, "0")
+					for _, bad := range []string{prefix + "-1", prefix + "+1", prefix + "-2", prefix, prefix + "0x1", prefix + "1.0"} {
+						t := append([]string(nil), base...)
+						t[i] = bad
+						c.checkRejected(name, "malformed-index", strings.TrimSpace(name+" "+strings.Join(t, " ")))
+					}
 				}
 			}
 		}
